@@ -19,7 +19,7 @@ REQUIRED = {"c04_kept_hits": 50000, "c04_kept_depth>=2_positive_offsets": 200, "
 
 
 def plan(tier, seed):
-    return ec.plan(ID, tier, seed)
+    return ec.plan(ID, tier, seed, stride3=12)
 
 
 def run_shard(spec, ctx):
